@@ -1400,3 +1400,88 @@ Proof.
     + unfold s'. simpl. rewrite W5, P7. unfold s2. simpl. rewrite SIT. apply (sg_iters _ _ G).
     + unfold s'. simpl. rewrite W7, P9. unfold s2. simpl. rewrite SAL. apply (sg_alive _ _ G).
 Qed.
+
+(* ---------- destroy ---------- *)
+(* the nodes still to be destroyed: intact, chained at level 0 *)
+Record Rest (s : kstate) (hsub : list nsub) (T : list nat) : Prop := {
+  rs_hdr : exists h, dnode s HEADER = Ok h /\ sn_subs h = hsub;
+  rs_nodup : NoDup (HEADER :: T);
+  rs_node : forall x, In x T -> exists n k a, dnode s x = Ok n /\ sn_key n = Some k /\ sn_ref n = 1 /\ darr s (sn_fwd n) = Ok a;
+  rs_own : forall x y n m, In x (HEADER :: T) -> In y (HEADER :: T) -> dnode s x = Ok n -> dnode s y = Ok m -> sn_fwd n = sn_fwd m -> x = y;
+  rs_link : match T with [] => True | x :: T' => Linked s 0 x T' end
+}.
+
+Definition del_notifs_k (s : kstate) (hsub : list nsub) (x : nat) : list notif :=
+  match dnode s x with
+  | Ok n => notify_node (sn_subs n) EV_DELETED (match sn_key n with Some k => k | None => [] end) (sn_val n) 0%N ++
+            notify_global hsub EV_DELETED (match sn_key n with Some k => k | None => [] end) (sn_val n) 0%N
+  | Err _ => []
+  end.
+
+Lemma node_destroy_ok : forall s x n k a h, dnode s x = Ok n -> sn_key n = Some k -> x <> HEADER -> darr s (sn_fwd n) = Ok a ->
+  dnode s HEADER = Ok h ->
+  exists s', k_node_destroy kv_fixed s x = Ok (s', notify_node (sn_subs n) EV_DELETED k (sn_val n) 0%N ++ notify_global (sn_subs h) EV_DELETED k (sn_val n) 0%N) /\
+    (forall z, z <> x -> dnode s' z = dnode s z) /\ (forall b, b <> sn_fwd n -> darr s' b = darr s b) /\
+    length (k_nodes s') = length (k_nodes s) /\ k_used s' = k_used s.
+Proof.
+  intros s x n k a h N K NH A H. assert (LT : x < length (k_nodes s)) by (eapply dnode_lt; eauto).
+  unfold k_node_destroy. rewrite N. cbn [bind]. simpl kx_hdr_notify.
+  replace (Nat.eqb x HEADER) with false by (symmetry; apply Nat.eqb_neq; auto). cbn [andb]. rewrite K.
+  unfold k_notify. rewrite H. cbn [bind]. simpl kx_removed. cbv iota. unfold free_arr. rewrite A. cbn [bind].
+  unfold free_node. unfold dnode at 1. cbn [k_nodes set_arrs]. fold (dnode s x). rewrite N. cbn [bind].
+  eexists. split; [reflexivity|]. split; [|split].
+  - intros z Hz. unfold dnode. cbn [k_nodes set_nodes set_arrs]. rewrite nth_error_upd_list by auto.
+    replace (Nat.eqb x z) with false by (symmetry; apply Nat.eqb_neq; auto). reflexivity.
+  - intros b Hb. unfold darr. cbn [k_arrs set_nodes set_arrs]. rewrite nth_error_upd_list by (eapply darr_lt; eauto).
+    replace (Nat.eqb (sn_fwd n) b) with false by (symmetry; apply Nat.eqb_neq; auto). reflexivity.
+  - cbn [k_nodes set_nodes set_arrs k_used]. rewrite upd_length. auto.
+Qed.
+
+Lemma destroy_loop_ok : forall T fuel s hsub, length T < fuel -> Rest s hsub T ->
+  exists s', k_destroy_loop kv_fixed fuel s (hd_error T) = Ok (s', flat_map (del_notifs_k s hsub) T) /\
+    (exists h, dnode s' HEADER = Ok h /\ sn_subs h = hsub /\ dnode s HEADER = Ok h) /\
+    (forall h, dnode s HEADER = Ok h -> darr s' (sn_fwd h) = darr s (sn_fwd h)) /\
+    length (k_nodes s') = length (k_nodes s) /\ k_used s' = k_used s.
+Proof.
+  induction T; intros fuel s hsub Hf R.
+  - destruct fuel; [simpl in Hf; lia|]. simpl. exists s. split; auto. destruct (rs_hdr _ _ _ R) as [h [H1 H2]]. split; eauto.
+  - destruct fuel; [simpl in Hf; lia|]. cbn [hd_error k_destroy_loop].
+    destruct (rs_hdr _ _ _ R) as [h [H1 H2]].
+    destruct (rs_node _ _ _ R a (or_introl eq_refl)) as [n [k [ar [N1 [N2 [N3 N4]]]]]].
+    assert (NH : a <> HEADER). { intro Q0. generalize (rs_nodup _ _ _ R). intro Q. inversion Q as [|? ? Q1 Q2]. apply Q1. left; auto. }
+    (* the successor *)
+    assert (NX : node_next (search_fuel s) s a = Ok (hd_error T)).
+    { unfold search_fuel. destruct (12 * (length (k_nodes s) + 2)) eqn:F; [lia|]. cbn [node_next].
+      generalize (rs_link _ _ _ R). intro L. rewrite (linked_head _ _ _ _ L). cbn [bind]. destruct T; auto. cbn [hd_error].
+      destruct (rs_node _ _ _ R n1) as [m [km [am [M1 [M2 [M3 M4]]]]]]. right; left; auto. rewrite M1. cbn [bind]. rewrite M3. reflexivity. }
+    rewrite NX. cbn [bind].
+    destruct (node_destroy_ok s a n k ar h N1 N2 NH N4 H1) as [s1 [D1 [D2 [D3 [D4 D5]]]]]. rewrite D1. cbn [bind].
+    assert (NDT : NoDup (HEADER :: a :: T)) by apply (rs_nodup _ _ _ R).
+    assert (AT : ~ In a T). { inversion NDT; subst. inversion H4; auto. }
+    assert (FR : forall z m, In z (HEADER :: T) -> dnode s z = Ok m -> sn_fwd m <> sn_fwd n).
+    { intros z m Hz M Q. assert (z = a). { eapply (rs_own _ _ _ R z a); eauto. destruct Hz; [left|right; right]; auto. right; left; auto. }
+      subst z. destruct Hz as [Hz|Hz]. congruence. contradiction. }
+    assert (R1 : Rest s1 hsub T).
+    { constructor.
+      - exists h. rewrite D2 by auto. auto.
+      - inversion NDT; subst. inversion H4; subst. constructor; auto. intro Q. apply H3. right; auto.
+      - intros z Hz. destruct (rs_node _ _ _ R z (or_intror Hz)) as [m [km [am [M1 [M2 [M3 M4]]]]]].
+        exists m, km, am. rewrite D2 by (intro; subst; contradiction). repeat split; auto. rewrite D3; auto. apply (FR z m); auto. right; auto.
+      - intros z1 z2 m1 m2 Hz1 Hz2 M1 M2 Q.
+        assert (z1 <> a) by (intro; subst; destruct Hz1 as [Hz1|Hz1]; [congruence|contradiction]).
+        assert (z2 <> a) by (intro; subst; destruct Hz2 as [Hz2|Hz2]; [congruence|contradiction]).
+        rewrite D2 in M1, M2 by auto. eapply (rs_own _ _ _ R z1 z2); eauto. destruct Hz1; [left|right; right]; auto. destruct Hz2; [left|right; right]; auto.
+      - destruct T as [|t T']; auto. generalize (rs_link _ _ _ R). cbn [Linked]. intros [_ L].
+        apply (linked_ext s). 2: exact L. intros z Hz.
+        assert (ZT : In z (t :: T')) by (destruct Hz; [subst; left|right]; auto).
+        destruct (rs_node _ _ _ R z (or_intror ZT)) as [m [km [am [M1 [M2 [M3 M4]]]]]].
+        unfold fwd. rewrite D2 by (intro; subst; contradiction). rewrite M1. cbn [bind]. rewrite D3; auto. apply (FR z m); auto. right; auto. }
+    destruct (IHT fuel s1 hsub) as [s' [E1 [E2 [E3 [E4 E5]]]]]; auto. simpl in Hf. lia.
+    rewrite E1. cbn [bind]. exists s'. split.
+    + f_equal. f_equal. cbn [flat_map]. f_equal.
+      * unfold del_notifs_k. rewrite N1, N2, H2. reflexivity.
+      * apply flat_map_ext'. intros z Hz. unfold del_notifs_k. rewrite D2. auto. intro; subst; contradiction.
+    + split. { destruct E2 as [h' [Q1 [Q2 Q3]]]. rewrite D2 in Q3 by auto. exists h'. auto. }
+      split. { intros h0 Hh. rewrite H1 in Hh. inversion Hh; subst h0. rewrite (E3 h). rewrite D3; auto. apply (FR HEADER h); auto. left; auto. rewrite D2; auto. }
+      split. lia. congruence.
+Qed.
